@@ -10,5 +10,5 @@ Theorem C02_A_convert : forall a : nat -> R,
   (A_convert_1 a = flat_A 1%nat (spec_A_convert 1%nat (full_C 1%nat a))) /\
   (A_convert_2 a = flat_A 2%nat (spec_A_convert 2%nat (full_C 2%nat a))) /\
   (A_convert_3 a = flat_A 3%nat (spec_A_convert 3%nat (full_C 3%nat a))).
-Proof. intros; exact (conj (A_convert_1_ok a) (conj (A_convert_2_ok a) (A_convert_3_ok a))). Qed.
+Proof. intros a; exact (conj (A_convert_1_ok a) (conj (A_convert_2_ok a) (A_convert_3_ok a))). Qed.
 Print Assumptions C02_A_convert.
